@@ -322,16 +322,6 @@ theorem phase_reported (R : Res) (order : List Nat) (fuel : Nat) (s : PState) (h
 
 /-! ### the model's functions are the parametrised ones -/
 
-/-- Go: `Modules.Process` from the augment loop to the last `FixChoice`, as written in
-`Model.processAll`. -/
-def augmentPhase (reg : Registry) (order : List Nat) (fuel : Nat) (s : PState) : PState :=
-  let (left, s) := augmentLoop reg fuel order.toArray s
-  let s := { s with forest := { trees := s.forest.trees.map fun (i, e) => (i, fixChoice e) } }
-  let (s, applied) := left.foldl (fun (acc : PState × Nat) id =>
-    let (s, p, _) := augmentTree reg id true acc.1
-    (s, acc.2 + p)) (s, 0)
-  if applied > 0 then { s with forest := { trees := s.forest.trees.map fun (i, e) => (i, fixChoice e) } } else s
-
 theorem leftover_eq (reg : Registry) : ∀ (l : List Nat) (s : PState) (n : Nat) (tr : List Ev), PlainPending reg s →
     l.foldl (fun (acc : PState × Nat) id =>
       let (s, p, _) := augmentTree reg id true acc.1
@@ -358,5 +348,111 @@ theorem augmentPhase_eq (reg : Registry) (order : List Nat) (fuel : Nat) (s : PS
       forest := fixAll (augmentLoopR (Res.ofReg reg) fuel order.toArray s []).2.1.forest } : PState) 0 [] hp1
   unfold fixAll at this ⊢
   rw [this]
+
+/-! ### the tie to `processAll` -/
+
+/-- `Process` either stops early with errors (linking, identities, typedefs, conversion), or it
+runs the augment phase on some error-free forest with some pending table and module order, and
+returns the errors swept after that phase (plus those of the deviations). -/
+theorem processAll_phase (reg : Registry) (opts : Opts) (plug : Plug) :
+    (∃ errs, errs ≠ [] ∧ (processAll reg opts plug).errors = canonErrs errs) ∨
+    ∃ (s : PState) (order : List Nat) (derrs : List Err), allErrs s.forest = [] ∧
+      (processAll reg opts plug).errors =
+        canonErrs (allErrs (augmentPhase reg order (s.pending.foldl (fun n p => n + p.2.length) 0 + 2) s).forest ++ derrs) := by
+  unfold processAll
+  simp only
+  split
+  · rename_i h1
+    left
+    exact ⟨_, by simpa using h1, rfl⟩
+  · split
+    · rename_i h1 h2
+      left
+      exact ⟨_, by simpa using h2, rfl⟩
+    · rename_i h1 h2
+      right
+      exact ⟨⟨_, _⟩, _, _, by simpa [allErrs] using h2, rfl⟩
+
+theorem insertBy_ne_nil {α} (lt : α → α → Bool) (x : α) (l : List α) : insertBy lt x l ≠ [] := by
+  cases l with
+  | nil => simp [insertBy]
+  | cons y ys => simp only [insertBy]; split <;> simp
+
+theorem sortBy_ne_nil {α} (lt : α → α → Bool) (l : List α) (h : l ≠ []) : sortBy lt l ≠ [] := by
+  cases l with
+  | nil => exact absurd rfl h
+  | cons x xs => simp only [sortBy, List.foldr_cons]; exact insertBy_ne_nil _ _ _
+
+/-- The canonical error set is empty only for an empty error list. -/
+theorem canonErrs_ne_nil (es : List Err) (h : es ≠ []) : canonErrs es ≠ [] := by
+  unfold canonErrs
+  simp only
+  intro hnil
+  have hs := sortBy_ne_nil (fun (a b : Err) =>
+    if a.file != b.file then a.file < b.file
+    else if a.line != b.line then a.line < b.line
+    else if a.col != b.col then a.col < b.col
+    else a.cls < b.cls) es h
+  revert hnil
+  generalize sortBy _ es = l at hs
+  cases l with
+  | nil => exact absurd rfl hs
+  | cons x xs => simp [List.eraseDups_cons]
+
+/-- The hypotheses under which the augment part of the model is analysed; all are statements
+about what `ToEntry` and the registry hand to the augment loop. -/
+structure PhaseInput (reg : Registry) (s : PState) (order : List Nat) : Prop where
+  /-- augment arguments are absolute schema node identifiers -/
+  plain : PlainPending reg s
+  /-- no augment entry is listed twice for one module -/
+  nodup : NodupPending s
+  /-- every (sub)module with augments is visited by the loop -/
+  cover : Cover s order.toArray
+  /-- one row per tree in the pending table -/
+  keys : (keys s).Nodup
+  /-- the tree of every (sub)module with augments exists -/
+  trees : ∀ id, s.pendingOf id ≠ [] → (s.forest.tree? id).isSome = true
+
+/-- "…or reported" for `processAll`. -/
+theorem processAll_reported (reg : Registry) (opts : Opts) (plug : Plug) :
+    (∃ errs, errs ≠ [] ∧ (processAll reg opts plug).errors = canonErrs errs) ∨
+    ∃ (s : PState) (order : List Nat), allErrs s.forest = [] ∧
+      (PhaseInput reg s order →
+        let fuel := s.pending.foldl (fun n p => n + p.2.length) 0 + 2
+        let ph := phaseR (Res.ofReg reg) order fuel s
+        (∀ id, ∀ a ∈ s.pendingOf id,
+          (id, a) ∈ ph.2.1.map Ev.key ∨ (id, a) ∈ ph.2.2.map Ev.key ∨ (processAll reg opts plug).errors ≠ []) ∧
+        (∀ ev ∈ ph.2.1,
+          (¬ (absEv (Res.ofReg reg) s.forest ev).roots.Nodup ∨
+            (absEv (Res.ofReg reg) s.forest ev).Collides (viewOf ev.before)) →
+          (processAll reg opts plug).errors ≠ [])) := by
+  rcases processAll_phase reg opts plug with h | ⟨s, order, derrs, h0, herr⟩
+  · exact Or.inl h
+  · right
+    refine ⟨s, order, h0, ?_⟩
+    intro hin
+    simp only
+    have hfuel := fuel_sufficient s hin.keys
+    obtain ⟨h1, h2⟩ := phase_reported (Res.ofReg reg) order _ s hin.nodup hin.cover hfuel hin.trees
+    rw [augmentPhase_eq reg order _ s hin.plain] at herr
+    have hne : ∀ er, er ∈ allErrs (phaseR (Res.ofReg reg) order
+        (s.pending.foldl (fun n p => n + p.2.length) 0 + 2) s).1.forest → (processAll reg opts plug).errors ≠ [] := by
+      intro er her
+      rw [herr]
+      apply canonErrs_ne_nil
+      intro hnil
+      have : er ∈ allErrs (phaseR (Res.ofReg reg) order
+        (s.pending.foldl (fun n p => n + p.2.length) 0 + 2) s).1.forest ++ derrs := List.mem_append_left _ her
+      rw [hnil] at this
+      cases this
+    refine ⟨?_, ?_⟩
+    · intro id a ha
+      rcases h1 id a ha with h | h | h
+      · exact Or.inl h
+      · exact Or.inr (Or.inl h)
+      · exact Or.inr (Or.inr (hne _ h))
+    · intro ev hev hbad
+      obtain ⟨er, her, _⟩ := h2 ev hev hbad
+      exact hne er her
 
 end Goyang.Lemmas.AugmentReport
